@@ -250,6 +250,36 @@ let hdr_op (a : string array) : string =
   | Err _ -> "err"
   | Crash c -> "crash " ^ crash_name c
 
+(* ---------- locale names (C19) ---------- *)
+let opt_s = function None -> "-" | Some x -> out_str x
+let arg_opt (s : string) : n list option = if s = "-" then None else Some (arg_str s)
+let lang_s (l : language) : string =
+  "ll=" ^ out_str l.l_lang ^ " cc=" ^ opt_s l.l_terr ^ " enc=" ^ opt_s l.l_enc ^ " mod=" ^ opt_s l.l_mod
+  ^ " str=" ^ out_str (str_language l)
+let lerr_s = function LSyntax -> "err syntax" | LFixCodes -> "err fix"
+let id_cfg = gen_cfg (fun x -> x)
+let lres_s = function
+  | Ok l -> "ok " ^ lang_s l
+  | Err e -> lerr_s e
+  | Crash c -> "crash " ^ crash_name c
+let src_s = function
+  | SrcCommandLine -> "command-line" | SrcPathname -> "pathname"
+  | SrcLanguageField -> "field" | SrcPoedit -> "poedit"
+let sl l = out_str (str_language l)
+let ldiag_s = function
+  | DDupLanguage -> "dup-language"
+  | DNoLanguageField None -> "no-language-field"
+  | DNoLanguageField (Some l) -> "no-language-field " ^ sl l
+  | DInvalidLanguage (o, None) -> "invalid-language " ^ out_str o
+  | DInvalidLanguage (o, Some l) -> "invalid-language " ^ out_str o ^ " => " ^ sl l
+  | DEncodingInField o -> "encoding-in-field " ^ out_str o
+  | DVariantNoEffect o -> "variant-no-effect " ^ out_str o
+  | DDisparity (l, s, l2, s2) -> "disparity " ^ sl l ^ " " ^ src_s s ^ " " ^ sl l2 ^ " " ^ src_s s2
+  | DDupPoedit false -> "dup-poedit language"
+  | DDupPoedit true -> "dup-poedit country"
+  | DUnknownPoedit nm -> "unknown-poedit " ^ out_str nm
+  | DUnable -> "unable"
+
 (* ---------- dispatch ---------- *)
 let handle (op : string) (a : string array) : string =
   match op with
@@ -369,6 +399,54 @@ let handle (op : string) (a : string array) : string =
   | "hdr_splitlines" -> String.concat " " (List.map out_str (splitlines (arg_str a.(0))))
   | "hdr_project" -> hdiags_s (project_diags ucd_oracles (arg_str a.(0)))
   | "hdr_sort" -> String.concat " " (List.map out_str (sort_u (List.map arg_str (Array.to_list a))))
+  | "lparse" -> lres_s (parse_language (arg_str a.(0)))
+  | "lparsez" -> lres_s (parse_language_Z (arg_str a.(0)))
+  | "lfix" ->  (* parse, then fix_codes; then fix_codes again on the result *)
+    (match parse_language (arg_str a.(0)) with
+     | Ok l ->
+       (match fix_codes id_cfg l with
+        | Ok (l1, b) ->
+          "ok " ^ lang_s l1 ^ (if b then " changed" else " same") ^ " again: " ^
+          (match fix_codes id_cfg l1 with
+           | Ok (l2, b2) -> "ok " ^ lang_s l2 ^ (if b2 then " changed" else " same")
+           | Err e -> lerr_s e | Crash c -> "crash " ^ crash_name c)
+        | Err e -> lerr_s e | Crash c -> "crash " ^ crash_name c)
+     | Err e -> lerr_s e | Crash c -> "crash " ^ crash_name c)
+  | "lcli" -> lres_s (cli_language id_cfg (arg_str a.(0)))
+  | "lname" ->  (* the munched name *)
+    (match lookup_munched id_cfg (arg_str a.(0)) with
+     | Ok l -> "ok " ^ lang_s l
+     | Err _ -> "err lookup"
+     | Crash c -> "crash " ^ crash_name c)
+  | "lpath" ->
+    let p = arg_str a.(0) in
+    "dir=" ^ opt_s (lcmessages_parent p) ^
+    (if lg_endswith p s_dot_po then
+       (let (root, ext) = splitext (basename p) in " po root=" ^ out_str root ^ " ext=" ^ out_str ext)
+     else " notpo")
+  | "lcheck" ->
+    (* template opt(flag ll cc enc mod) path nmetas metas.. npls pls.. npcs pcs.. nmunch (name munched).. *)
+    let tmpl = arg_bool a.(0) in
+    let opt = if arg_bool a.(1) then
+        Some { l_lang = arg_str a.(2); l_terr = arg_opt a.(3); l_enc = arg_opt a.(4); l_mod = arg_opt a.(5) }
+      else None in
+    let path = arg_str a.(6) in
+    let pos = ref 7 in
+    let take_list () =
+      let k = arg_int a.(!pos) in
+      let l = List.init k (fun i -> arg_str a.(!pos + 1 + i)) in
+      pos := !pos + 1 + k; l in
+    let metas = take_list () in
+    let pls = take_list () in
+    let pcs = take_list () in
+    let nm = arg_int a.(!pos) in
+    let pairs = List.init nm (fun i -> (arg_str a.(!pos + 1 + 2 * i), arg_str a.(!pos + 2 + 2 * i))) in
+    let munch x = match List.assoc_opt x pairs with Some y -> y | None -> failwith "munch oracle: no entry" in
+    (match check_language (gen_cfg munch) opt path metas pls pcs tmpl with
+     | Ok (ds, lang) ->
+       String.concat " | " (List.map ldiag_s ds) ^ " || " ^ (match lang with None -> "none" | Some l -> lang_s l)
+     | Err e -> "crash LanguageError"
+     | Crash c -> "crash " ^ crash_name c)
   | _ -> "unknown-op " ^ op
 
 let () =
